@@ -2,7 +2,7 @@
 import datetime as dt
 
 from harness.core import Part, ok, viol, discard, HarnessError
-from harness import dp, bv, grammar, bumpref
+from harness import fuzz, dp, bv, grammar, bumpref
 from harness.refmodel import (PART_FIELD, parts_of, pattern_str, ref_render, ref_parse_all, with_defaults,
                               selftest_calendar, ref_cal)
 
@@ -187,6 +187,7 @@ def selftest():
 
 PARTS = [
     Part("test-cli", check=check, strategy=lambda: dp.cases(build, size=192), n={"quick": 64000, "thorough": 1600000}),
+    fuzz.fuzz_part("test-cli-coverage-guided", build, check, size=192, runs={"quick": 12000, "thorough": 400000}),
 ]
 
 MANIFEST = {
